@@ -279,3 +279,11 @@ def run(cx):
                    "ActivePeersInner::add does not close the connection it drops from the listing on some path: " + "; ".join(v.msg for v in bad)[:300],
                    "anemo::network::connection_manager::ActivePeersInner::add")
 
+    with cx.ob("C09.6", "R-STICKY", "a connection handler that ends abnormally takes the manager down with it (panics re-raised in the join arms): no connection stays listed that nobody watches any more - C08.2 re-evaluated") as ob:
+        from . import c08
+        sub = cx.__class__("C09", prog, cx.tier, cx.config, cx.tree, repo=cx.repo)
+        c08.run(sub)
+        w = [x for x in sub.obs if x.oid in ['C08.2']]
+        ob.count(sum(x.evals for x in w))
+        bad = [v for x in w for v in x.violations]
+        ob.require(len(w) == 1 and not bad, "unwatched-connection/handler-failure-propagates", "the manager loop swallows the failure of a connection handler (its peer stays listed although nothing serves or watches the connection): " + "; ".join(str(v.msg) for v in bad)[:300], "anemo::network::connection_manager::ConnectionManager::start")
